@@ -851,7 +851,34 @@ CHECKS["C16"] = make_check("C16", c16_plans,
     "in the loop: after updates, GET checkpoint for known / unknown ids, GET log list, and 17 classes of syntactically odd ids (empty, slashes, dot segments, encoded, truncated, "
     "prefix, extended, non-ASCII, very long ...), first response and response after redirects; judged by ReadExact / LogListExact / OddId; every update step also checks the "
     "storage log list (a refused first submission creates no entry); distinct = distinct read or update steps by (state, request, outcome)",
-    lambda e: e.get("e") in ("get", "getlogs", "getodd", "update"))
+    lambda e: e.get("e") in ("get", "getlogs", "getodd", "update"),
+    post_all=lambda work, rep, tier, seed: c16_failing_reads(work, rep, tier, seed))
+
+
+def c16_failing_reads(work, rep, tier, seed):
+    """"Serves exactly the stored state" when the store cannot be read: the read of a log that HAS a checkpoint fails (interface level on the in-memory
+    store; query / row fetch at SQL-driver level), through the registered handlers and the bundled client. The answer says that the read failed
+    (it is never 404 / "no checkpoint yet", which feeders take for an empty witness), and the next read serves the stored bytes again."""
+    c = H("quick")
+    tofu1 = {"op": "update", "log": "l1", "req": {"auth": "good", "old": 0, "b": 0, "n": 1, "extra": 0, "stale": 0, "ext": 0, "pf": {"k": "empty"}}}
+    grow12 = {"op": "update", "log": "l1", "req": {"auth": "good", "old": 1, "b": 0, "n": 2, "extra": 0, "stale": 0, "ext": 0, "pf": {"k": "right", "b": 0, "m": 1, "n": 2}}}
+    get = {"op": "get", "log": "l1"}
+    by_store = {"inmem": [dict(get, faults=["ReadGetLatest"])], "sqlfault": [dict(get, dfaults=["query"]), dict(get, dfaults=["next"]), dict(get, faults=["ReadGetLatest"])]}
+    nfail = 0
+    for store, bads in by_store.items():
+        runs = []
+        for j, bad in enumerate(bads):
+            runs.append({"id": "failing-read-%d" % j, "steps": [get, tofu1, get, bad, get, bad, bad, get, grow12, bad, get, {"op": "getlogs"}]})
+        trace, _ = execute(work, rep, c, runs, [store], ["id"], seed, http=True, tag="c16rf" + store, faults=True)
+        events = index_trace(trace)
+        settle(rep, "C16", judge(work, rep, c, trace, name="judge-failing-reads-" + store), events, c)
+        gets = [e for e in events if e.get("e") == "get"]
+        rep.cov["evaluations"] += len(gets)
+        nfail += sum(1 for e in gets if e.get("fired"))
+        os.remove(trace)
+    if not nfail:
+        raise Inconclusive("no read failure was injected in the failing-read runs")
+    rep.cov["reads_during_which_the_store_failed_over_http"] = nfail
 
 # ----------------------------------------------------------------------------- C12 (isolation half; the identity half is in the omni family)
 
